@@ -1,29 +1,159 @@
-"""WSStream (hypercorn/protocol/ws_stream.py)."""
+"""hypercorn/protocol/ws_stream.py: WebsocketBuffer (C10), Handshake (C11), WSStream (C03, C05,
+C10, C11, C12)."""
 from pyvc.contracts import Callback, cls, fn
 
-WS = "hypercorn.protocol.ws_stream:WSStream"
+M = "hypercorn.protocol.ws_stream:"
+WS = M + "WSStream"
+WB = M + "WebsocketBuffer"
+HK = M + "Handshake"
+
+# ------------------------------------------------------------------------------ WebsocketBuffer
+cls(WB, fields={"value": "none | obj io:BytesIO | obj io:StringIO", "length": "int", "max_length": "int"},
+    inv=[("WebsocketBuffer.inv.length", "self.length >= 0", "C10"),
+         # the accumulated size is the size of what has been written
+         ("WebsocketBuffer.inv.size", "implies(self.value is not None, self.length == len(self.value.content)) and implies(self.value is None, self.length == 0)", "C10")])
+
+fn(WB + ".__init__", params={"max_length": "int"},
+   ensures=[("C10.buffer.init", "self.value is None and self.length == 0 and self.max_length == max_length", "C10")], props=("C10",))
+
+fn(WB + ".extend", params={"event": "obj wsproto.events:TextMessage | obj wsproto.events:BytesMessage"},
+   requires=[("extend.pre.same-type", "implies(self.value is not None, isinstance(self.value, StringIO) == isinstance(event, TextMessage))")],
+   ensures=[("C10.buffer.extend", "self.length == old(self.length) + len(event.data) and self.length <= self.max_length and self.value is not None", "C10"),
+            ("C10.buffer.type", "isinstance(self.value, StringIO) == (isinstance(event, TextMessage) if old(self.value) is None else isinstance(old(self.value), StringIO))", "C10")],
+   raises={"FrameTooLargeError": {"when": "self.length + len(event.data) > self.max_length",
+                                  "ensures": [("C10.buffer.too-large", "old(self.length) + len(event.data) > self.max_length", "C10")]}},
+   modifies=["self.value", "self.length"], effect="atomic", props=("C10",),
+   ghost_on_raise={"FrameTooLargeError": ["caller_set('g_too_big', True)"]})
+
+fn(WB + ".clear", params={}, ensures=[("C10.buffer.clear", "self.value is None and self.length == 0", "C10")],
+   modifies=["self.value", "self.length"], effect="atomic", props=("C10",))
+
+
+fn(WB + ".to_message", params={}, modifies=[], effect="atomic", returns=None,
+   requires=[("to_message.pre", "self.value is not None")],
+   ensures=[("C10.buffer.message", "result['type'] == 'websocket.receive' and (result['bytes'] is None) == isinstance(self.value, StringIO) and (result['text'] is None) == isinstance(self.value, BytesIO) "
+             "and implies(isinstance(self.value, BytesIO), result['bytes'] == self.value.content) and implies(isinstance(self.value, StringIO), result['text'] == self.value.content)", "C10")],
+   props=("C10",))
+
+# ------------------------------------------------------------------------------ Handshake
+cls(HK, fields={"accepted": "bool", "http_version": "str", "connection_tokens": "opt strs", "extensions": "opt strs", "key": "opt bstr",
+                "subprotocols": "opt strs", "upgrade": "opt bstr", "version": "opt bstr"},
+    inv=[], rely=[("Handshake.rely.accepted-monotone", "implies(old(self.accepted), self.accepted)", "C11")])
+
+fn(HK + ".__init__", params={"headers": "hdrs", "http_version": "str"},
+   loops={0: {"locals": {"name": "bstr", "value": "bstr"}}},
+   ensures=[("Handshake.init", "not self.accepted and self.http_version == http_version", "C11")],
+   # trusted one-liner about the header scan (an existential loop invariant is out of reach)
+   assumed_ensures=[("Handshake.init.upgrade-found", "implies(has_header(headers, b'upgrade'), self.upgrade is not None)", "C11")],
+   props=("C11",))
+
+fn(HK + ".is_valid", params={}, returns="bool", modifies=[], effect="atomic",
+   # H11Protocol only builds a WSStream for an HTTP/1.1 request that carries Upgrade: websocket
+   requires=[("is_valid.pre.h1-upgrade", "implies(self.http_version == '1.1', self.upgrade is not None)")],
+   ensures=[
+       ("C11.valid.h10", "implies(self.http_version < '1.1', result == False)", "C11"),
+       ("C11.valid.h11", "implies(self.http_version == '1.1', implies(result, self.key is not None and self.connection_tokens is not None and self.upgrade.lower() == b'websocket' and self.version == b'13'))", "C11"),
+       ("C11.valid.h11.complete", "implies(self.http_version == '1.1' and not result, self.key is None or self.connection_tokens is None or not tokens_have_upgrade(self.connection_tokens) or self.upgrade.lower() != b'websocket' or self.version != b'13')", "C11"),
+       ("C11.valid.h2", "implies(self.http_version > '1.1', result == (self.version == b'13'))", "C11"),
+   ],
+   props=("C11",))
+
+fn(HK + ".accept", params={"subprotocol": "none | str", "additional_headers": "anyhdr"}, exceptional="app",
+   loops={0: {"locals": {"name": "anyhdr", "value": "anyhdr", "headers": "hdrs"}}},
+   ensures=[
+       ("C11.accept.status", "result[0] == (101 if self.http_version == '1.1' else 200)", "C11"),
+       ("C11.accept.accepted", "self.accepted", "C11"),
+       ("C11.accept.subprotocol-offered", "implies(subprotocol is not None, self.subprotocols is not None and subprotocol in self.subprotocols)", "C11"),
+   ],
+   props=("C11",))
+
+# ------------------------------------------------------------------------------ WSStream
+WSCOPE = ("dict{type:str;http_version:str;scheme:str;path:str;raw_path:bstr;query_string:bstr;"
+          "root_path:str;headers:hdrs;client:opaque;server:opaque;state:opaque;subprotocols:opaque;extensions:opaque}")
+WSS = "hypercorn.protocol.ws_stream:ASGIWebsocketState"
 
 cls(
     WS,
     fields={
-        "app": "opaque", "app_put": "opaque", "client": "opaque", "closed": "bool", "config": "obj hypercorn.config:Config",
-        "context": "obj hypercorn.typing:WorkerContext", "task_group": "obj hypercorn.typing:TaskGroup",
-        "send": "opaque", "scheme": "str", "server": "opaque",
-        "state": "enum hypercorn.protocol.ws_stream:ASGIWebsocketState", "stream_id": "int",
+        "app": "opaque", "app_put": "opaque", "buffer": "obj " + WB, "client": "opaque", "closed": "bool",
+        "config": "obj hypercorn.config:Config", "context": "obj hypercorn.typing:WorkerContext",
+        "task_group": "obj hypercorn.typing:TaskGroup", "response": "maybe msg(headers:short)", "scope": "maybe " + WSCOPE,
+        "send": "opaque", "scheme": "str", "server": "opaque", "start_time": "maybe real",
+        "state": "enum " + WSS, "stream_id": "int", "connection": "maybe obj M_ws", "handshake": "maybe obj " + HK,
     },
-    ghost={"g_app_started": "bool", "g_access": "nat", "g_disc": "nat"},
+    ghost={
+        "g_app_started": "bool", "g_spawned": "nat", "g_access": "nat", "g_disc": "nat",
+        "g_n_final": "nat",  # Response events sent (handshake answer)
+        "g_n_end": "nat",
+        "g_remote_closed": "bool",  # a close frame from the client has been seen
+        "g_remote_code": "int",  # its code
+        "g_too_big": "bool",  # a message exceeded websocket_max_message_size
+    },
     callbacks={
-        "send": Callback(name="send", effect="yields", record="sent"),
-        "app_put": Callback(name="app_put", effect="yields", record="puts", present="self.g_app_started",
-                            requires=[("C03.ws.nothing-after-disconnect", "self.g_disc == 0", "C03")],
+        "send": Callback(name="send", effect="yields", record="sent",
+                         requires=[("C11.ws.one-handshake-answer", "implies(isinstance(e, Response), self.g_n_final == 0)", "C11,C12")],
+                         ghost=["self.g_n_final = self.g_n_final + (1 if isinstance(e, Response) else 0)",
+                                "self.g_n_end = self.g_n_end + (1 if isinstance(e, EndBody) else 0)"]),
+        "app_put": Callback(name="app_put", effect="yields", record="puts", present=None,
+                            requires=[("C03.ws.nothing-after-disconnect", "self.g_disc == 0", "C03"),
+                                      ("C10.nothing-after-too-big", "implies(e['type'] == 'websocket.receive', not self.g_too_big)", "C10")],
                             ghost=["self.g_disc = self.g_disc + (1 if e['type'] == 'websocket.disconnect' else 0)"]),
     },
-    rely=[("WSStream.rely.closed-monotone", "implies(old(self.closed), self.closed)", "C03")],
+    inv=[
+        ("WSStream.inv.disc", "self.g_disc == (1 if (self.closed and self.g_app_started) else 0)", "C03"),
+        ("WSStream.inv.started", "implies(self.g_app_started, has(self, 'scope') and has(self, 'start_time') and has(self, 'handshake'))", "C04"),
+        ("WSStream.inv.spawn-once", "self.g_spawned == (1 if self.g_app_started else 0)", "C11"),
+        ("WSStream.inv.connected", "implies(self.state == ASGIWebsocketState.CONNECTED, has(self, 'connection') and self.g_app_started and value_of(self, 'handshake').accepted)", "C10"),
+        # the buffer holds exactly the message wsproto has in progress (same type), else nothing
+        ("WSStream.inv.buffer", "implies(has(self, 'connection'), (self.buffer.value is None) == (value_of(self, 'connection').cur_type == 0) "
+         "and implies(self.buffer.value is not None, isinstance(self.buffer.value, StringIO) == (value_of(self, 'connection').cur_type == 1)))", "C10,C04"),
+        ("WSStream.inv.accepted", "implies(has(self, 'handshake') and value_of(self, 'handshake').accepted, has(self, 'connection'))", "C04"),
+    ],
+    rely=[
+        ("WSStream.rely.closed-monotone", "implies(old(self.closed), self.closed)", "C03"),
+        ("WSStream.rely.started-monotone", "implies(old(self.g_app_started), self.g_app_started)", "C03"),
+        ("WSStream.rely.set-stays", "implies(has(old(self), 'scope'), has(self, 'scope')) and implies(has(old(self), 'start_time'), has(self, 'start_time')) and implies(has(old(self), 'handshake'), has(self, 'handshake')) and implies(has(old(self), 'connection'), has(self, 'connection'))", "C04"),
+        ("WSStream.rely.counters-grow", "self.g_disc >= old(self.g_disc) and self.g_access >= old(self.g_access)", "C03"),
+    ],
+    task_rely={
+        "reader": [("WSStream.rely[reader].not-started", "implies(not old(self.g_app_started), not self.g_app_started and self.state == old(self.state) and self.closed == old(self.closed) "
+                    "and self.g_n_final == old(self.g_n_final) and self.g_access == old(self.g_access) and self.g_disc == old(self.g_disc) and self.g_spawned == old(self.g_spawned))", "C03"),
+                   ("WSStream.rely[reader].receive-side", "self.g_too_big == old(self.g_too_big) and self.g_remote_closed == old(self.g_remote_closed) and self.g_remote_code == old(self.g_remote_code)", "C10")],
+        "app": [("WSStream.rely[app].automaton", "implies(old(self.g_app_started), self.state == old(self.state) and self.g_n_final == old(self.g_n_final))", "C11")],
+    },
+    task_stable={"app": ["response", "scope", "start_time", "handshake"], "reader": ["buffer", "scope", "start_time", "handshake"]},
+    published_inv=[("WSStream.published.requested", "has(self, 'scope') and has(self, 'start_time') and has(self, 'handshake')", "C04")],
 )
-fn(WS + ".handle", params={"event": "opaque"}, effect="yields", task="reader",
-   modifies=["self.closed", "self.state", "self.g_app_started", "self.g_access", "self.g_disc"],
-   ensures=[("ws.handle.closed-monotone", "implies(old(self.closed), self.closed)", "C03"),
-            ("ws.handle.closes", "implies(isinstance(event, StreamClosed), self.closed)", "C03,C07")],
-   props=("C03",))
+
 fn(WS + ".idle", params={}, returns="bool", modifies=[], effect="atomic",
    ensures=[("WSStream.idle.def", "result == (self.state in (ASGIWebsocketState.CLOSED, ASGIWebsocketState.HTTPCLOSED))", "C07")], props=("C07",))
+
+fn(WS + ".handle",
+   params={"event": "obj hypercorn.protocol.events:Request | obj hypercorn.protocol.events:Body | obj hypercorn.protocol.events:Data | obj hypercorn.protocol.events:EndBody | obj hypercorn.protocol.events:StreamClosed"},
+   effect="yields", task="reader",
+   modifies=["self.closed", "self.state", "self.scope", "self.start_time", "self.handshake", "self.app_put", "self.buffer", "self.connection", "self.g_app_started", "self.g_spawned", "self.g_access", "self.g_disc", "self.g_n_final", "self.g_n_end",
+             "self.g_remote_closed", "self.g_remote_code", "self.g_too_big"],
+   requires=[
+       ("ws.handle.pre.request-first", "iff(isinstance(event, Request), not has(self, 'scope')) and implies(not isinstance(event, Request), has(self, 'start_time') and has(self, 'handshake'))"),
+       ("ws.handle.pre.fresh", "implies(isinstance(event, Request), not self.closed and not self.g_app_started and self.state == ASGIWebsocketState.HANDSHAKE "
+        "and self.g_n_final == 0 and self.g_n_end == 0 and self.g_disc == 0 and self.g_access == 0 and self.g_spawned == 0 and not self.g_too_big and not self.g_remote_closed)"),
+       # H11Protocol builds a WSStream for HTTP/1.1 only when the request has Upgrade: websocket
+       ("ws.handle.pre.h1-upgrade", "implies(isinstance(event, Request) and event.http_version == '1.1', has_header(event.headers, b'upgrade'))"),
+   ],
+   ensures=[
+       ("ws.handle.closed-monotone", "implies(old(self.closed), self.closed)", "C03"),
+       ("ws.handle.closes", "implies(isinstance(event, StreamClosed), self.closed)", "C03,C07"),
+       ("ws.handle.set", "implies(isinstance(event, Request), has(self, 'scope') and has(self, 'start_time') and has(self, 'handshake'))", "C04"),
+       ("ws.handle.stays", "implies(has(old(self), 'scope'), has(self, 'scope') and has(self, 'start_time') and has(self, 'handshake'))", "C04"),
+       # C11: an invalid handshake is answered 400 and no application is started
+       ("C11.reject", "implies(isinstance(event, Request) and not self.g_app_started, self.closed and n_emitted('sent') == 2 and isinstance(emitted('sent')[0], Response) "
+        "and emitted('sent')[0].status_code in (400, 404) and isinstance(emitted('sent')[1], EndBody) and n_emitted('puts') == 0)", "C11"),
+       # C11: the first message to the application is websocket.connect
+       ("C11.connect", "implies(isinstance(event, Request) and self.g_app_started, n_emitted('puts') == 1 and emitted('puts')[0]['type'] == 'websocket.connect' and n_emitted('sent') == 0)", "C11"),
+       ("C03.ws.closed-delivers-nothing", "implies(old(self.closed), n_emitted('puts') == 0 and n_emitted('sent') == 0)", "C03"),
+       # C11: the disconnect code tells the application what happened
+       ("C11.code", "implies(isinstance(event, StreamClosed) and not old(self.closed) and self.g_app_started, n_emitted('puts') == 1 and emitted('puts')[0]['type'] == 'websocket.disconnect' "
+        "and emitted('puts')[0]['code'] == (old(self.g_remote_code) if old(self.g_remote_closed) else (1000 if old(self.state) in (ASGIWebsocketState.CLOSED, ASGIWebsocketState.HTTPCLOSED) else 1006)))", "C11"),
+   ],
+   loops={0: {"invariant": [("ws.events.loop", "has(self, 'connection') and has(self, 'scope') and has(self, 'start_time') and has(self, 'handshake') and self.g_app_started and implies(self.closed, self.g_disc == 1) and value_of(self, 'handshake').accepted")]}},
+   props=("C04", "C03", "C10", "C11"))
